@@ -868,6 +868,18 @@ pub fn worker(ctx: &'static Ctx, i: usize, n: usize) {
     let mut idx: Vec<(usize, Root)> = all.into_iter().enumerate().collect();
     idx.sort_by_key(|(_, r)| std::cmp::Reverse(r.bound * 100 + r.deliveries_horizon));
     let mine: Vec<(usize, Root)> = idx.into_iter().enumerate().filter(|(k, _)| k % n == i).map(|(_, r)| r).collect();
+    // pass 1: every log macro live; pass 2 (reported): the library's default, no logging
+    let single = std::env::var("VERIF_SINGLE_PASS").is_ok();
+    if !single {
+        set_logging(true);
+        let mut scratch = Stats::new();
+        // the logging pass explores every root with at most one deviation (the HTTP stack's own
+        // trace output makes this pass several times slower per execution)
+        let reduced: Vec<(usize, Root)> = mine.iter().map(|(i, r)| (*i, Root { bound: r.bound.min(1), ..r.clone() })).collect();
+        let _ = run_roots(ctx, &sim, &reduced, &mut scratch);
+        ctx.mark_pass_boundary("trace");
+    }
+    set_logging(false);
     let mut st = Stats::new();
     let (ex, pts, rep) = run_roots(ctx, &sim, &mine, &mut st);
     if crate::s3sim::HANDLER_PANICS.load(std::sync::atomic::Ordering::SeqCst) > 0 {
